@@ -94,7 +94,7 @@ package rlwe
 //@   requires encinv(enc)
 //@   requires isntt(sk.Value.Q) && mexp(sk.Value.Q) == 1
 //@   requires isntt(c1)
-//@   wlog mexp(c1) == 0 given uni(c1)
+//@   wlog mexp(c1) == ite(ct.MetaData.CiphertextMetaData.IsMontgomery, 1, 0) given uni(c1)
 //@   requires len(ct.Value) >= 1
 //@   assigns ct.Value[0], c1
 //@   draw XE
@@ -103,7 +103,9 @@ package rlwe
 //@   let c0 = ct.Value[0]
 //@   ensures val(c0) + val(c1) * val(sk.Value.Q) == fresh(XE, old(draws(XE)))
 //@   ensures draws(XE) == old(draws(XE)) + 1 && draws(UNIFORM) == old(draws(UNIFORM)) && isnil(err)
-//@   ensures mexp(c0) == 0 && mexp(c1) == 0 && uni(c1)
+// "the zero encryption is generated according to the given Ciphertext MetaData": in Montgomery form when the
+// metadata say so (finding F47: the error was never put in Montgomery form on this path)
+//@   ensures mexp(c0) == ite(ct.MetaData.CiphertextMetaData.IsMontgomery, 1, 0) && mexp(c1) == ite(ct.MetaData.CiphertextMetaData.IsMontgomery, 1, 0) && uni(c1)
 //@   ensures indom(c0, ct.IsNTT)
 //@   ensures implies(len(ct.Value) == 2, indom(c1, ct.IsNTT))
 
@@ -141,7 +143,7 @@ package rlwe
 //@   let c1 = ite(len(ct.Value) == 2, 1, 0)
 //@   ensures implies(isnil(result), draws(XE) == old(draws(XE)) + 1 && draws(UNIFORM) == old(draws(UNIFORM)) + 1)
 //@   ensures implies(isnil(result) && len(ct.Value) == 2, val(c0) + val(ct.Value[1]) * val(sk.Value.Q) == fresh(XE, old(draws(XE))))
-//@   ensures implies(isnil(result) && len(ct.Value) == 2, uni(ct.Value[1]) && indom(ct.Value[1], ct.IsNTT) && indom(c0, ct.IsNTT) && mexp(c0) == 0)
+//@   ensures implies(isnil(result) && len(ct.Value) == 2, uni(ct.Value[1]) && indom(ct.Value[1], ct.IsNTT) && indom(c0, ct.IsNTT) && mexp(c0) == ite(ct.MetaData.CiphertextMetaData.IsMontgomery, 1, 0))
 // a receiver of degree 2 (or more) gets the same degree-1 encryption in its first two components
 // (finding F26: the mask used to go to a scratch buffer for every degree other than 1)
 //@   ensures implies(isnil(result) && len(ct.Value) == 3, val(c0) + val(ct.Value[1]) * val(sk.Value.Q) == fresh(XE, old(draws(XE))) && uni(ct.Value[1]))
@@ -161,7 +163,7 @@ package rlwe
 //@   ensures val(ct.Value[0]) == u * old(val(pk.Value[0].Q)) + fresh(XE, old(draws(XE)))
 //@   ensures val(ct.Value[1]) == u * old(val(pk.Value[1].Q)) + fresh(XE, old(draws(XE)) + 1)
 //@   ensures draws(XE) == old(draws(XE)) + 2 && draws(XS) == old(draws(XS)) + 1
-//@   ensures mexp(ct.Value[0]) == 0 && mexp(ct.Value[1]) == 0
+//@   ensures mexp(ct.Value[0]) == ite(ct.MetaData.CiphertextMetaData.IsMontgomery, 1, 0) && mexp(ct.Value[1]) == ite(ct.MetaData.CiphertextMetaData.IsMontgomery, 1, 0)
 //@   ensures indom(ct.Value[0], ct.IsNTT) && indom(ct.Value[1], ct.IsNTT)
 
 // decryption: pt = c0 + c1*s (+ c2*s^2), metadata copied from the ciphertext
